@@ -53,6 +53,21 @@ func VerifC20Dispatch() {
 		verdict := nd.Bool("verdict")
 		called := 0
 		ni.AddMatcher(regTable, regKind, e1, func(a, b map[string]*types.Item) bool { called++; return verdict })
+		if nd.Param("prime", 1) == 1 {
+			// a look-up that finds nothing must not change what a later look-up finds: the requested text is first
+			// looked up under the two other kinds and on the other table (outcomes ignored)
+			for _, k := range vKinds {
+				if k != reqKind {
+					ni.Match(MatchInput{TableName: reqTable, Expression: e2, ExpressionType: k})
+				}
+			}
+			for _, t := range tables {
+				if t != reqTable {
+					ni.Match(MatchInput{TableName: t, Expression: e2, ExpressionType: reqKind})
+				}
+			}
+			called = 0
+		}
 		got, err := ni.Match(MatchInput{TableName: reqTable, Expression: e2, ExpressionType: reqKind})
 		want := same && regTable == reqTable && regKind == reqKind
 		nd.Assert((err == nil) == want, "C20-matcher-dispatched-exactly")
@@ -69,6 +84,17 @@ func VerifC20Dispatch() {
 			called++
 			item["touched"] = &types.Item{BOOL: &[]bool{true}[0]}
 		})
+		if nd.Param("prime", 1) == 1 {
+			for _, t := range tables {
+				if t != reqTable {
+					ni.Update(UpdateInput{TableName: t, Expression: e2, Item: map[string]*types.Item{}})
+				}
+			}
+			for _, k := range vKinds {
+				ni.Match(MatchInput{TableName: reqTable, Expression: e2, ExpressionType: k})
+			}
+			called = 0
+		}
 		item := map[string]*types.Item{}
 		err := ni.Update(UpdateInput{TableName: reqTable, Expression: e2, Item: item})
 		want := same && regTable == reqTable
